@@ -3,6 +3,9 @@ package main
 import (
 	"context"
 	"fmt"
+	protov1 "github.com/golang/protobuf/proto"
+	"github.com/jhump/protoreflect/desc"
+	"github.com/jhump/protoreflect/dynamic"
 
 	"google.golang.org/grpc"
 	"google.golang.org/grpc/codes"
@@ -315,6 +318,75 @@ func runC17(o *hx.Out, r *hx.Rand, thorough bool) {
 					map[string]interface{}{"calls_made": 3, "calls_seen_by_the_interceptor": seenCalls}, seenCalls, 3)
 			}
 		}
+		// an interceptor may RE-ROUTE a call: the name it hands to its continuation is the name the next layer and
+		// the wrapped channel are called with, for unary calls and for streams, through two layers
+		if it%5 == 0 {
+			var got []string
+			rec := methodRec{&got}
+			inner := grpchan.InterceptClientConn(rec,
+				func(ctx context.Context, method string, req, reply interface{}, cc *grpc.ClientConn, invoker grpc.UnaryInvoker, opts ...grpc.CallOption) error {
+					got = append(got, "inner layer: "+method)
+					return invoker(ctx, method, req, reply, cc, opts...)
+				},
+				func(ctx context.Context, desc *grpc.StreamDesc, cc *grpc.ClientConn, method string, streamer grpc.Streamer, opts ...grpc.CallOption) (grpc.ClientStream, error) {
+					got = append(got, "inner layer: "+method)
+					return streamer(ctx, desc, cc, method, opts...)
+				})
+			outer := grpchan.InterceptClientConn(inner,
+				func(ctx context.Context, method string, req, reply interface{}, cc *grpc.ClientConn, invoker grpc.UnaryInvoker, opts ...grpc.CallOption) error {
+					return invoker(ctx, "/v2"+method, req, reply, cc, opts...)
+				},
+				func(ctx context.Context, desc *grpc.StreamDesc, cc *grpc.ClientConn, method string, streamer grpc.Streamer, opts ...grpc.CallOption) (grpc.ClientStream, error) {
+					return streamer(ctx, desc, cc, "/v2"+method, opts...)
+				})
+			outer.Invoke(context.Background(), "/alias.Svc/U", &hx.Msg{}, &hx.Msg{})
+			outer.NewStream(context.Background(), &grpc.StreamDesc{ClientStreams: true, ServerStreams: true}, "/alias.Svc/BD")
+			want := "[inner layer: /v2/alias.Svc/U wrapped channel: /v2/alias.Svc/U inner layer: /v2/alias.Svc/BD wrapped channel: /v2/alias.Svc/BD]"
+			if fmt.Sprint(got) != want {
+				identOK = false
+				o.Violate("a call re-routed by an interceptor did not reach the next layer and the wrapped channel under the name the interceptor passed on",
+					map[string]interface{}{"layers": "outer re-routes /x to /v2/x, inner passes on", "calls": "unary /alias.Svc/U, stream /alias.Svc/BD"}, fmt.Sprint(got), want)
+			}
+		}
+		// the reply a caller supplies is the caller's: an intercepted channel hands it to the wrapped channel as it
+		// is (a reflection-based message included), and a failed call leaves it as the wrapped channel left it
+		if it%5 == 1 {
+			passOn := func(ctx context.Context, method string, req, reply interface{}, cc *grpc.ClientConn, invoker grpc.UnaryInvoker, opts ...grpc.CallOption) error {
+				return invoker(ctx, method, req, reply, cc, opts...)
+			}
+			ipc := &inprocgrpc.Channel{}
+			ipc.RegisterService(hx.Desc(hx.SvcName), &hx.Svc{Unary: func(ctx context.Context, req *hx.Msg) (*hx.Msg, error) {
+				if req.Count == 13 {
+					return nil, status.Error(codes.Internal, "scripted")
+				}
+				return &hx.Msg{Count: req.Count + 1, Payload: []byte("reply")}, nil
+			}})
+			ich := grpchan.InterceptClientConn(ipc, passOn, nil)
+			md, _ := desc.LoadMessageDescriptorForMessage(protov1.MessageV1(&hx.Msg{}))
+			dyn := dynamic.NewMessage(md)
+			var derr error
+			func() {
+				defer func() {
+					if p := recover(); p != nil {
+						derr = fmt.Errorf("panic: %v", p)
+					}
+				}()
+				derr = ich.Invoke(context.Background(), "/verif.Svc/U", &hx.Msg{Count: 4}, dyn)
+			}()
+			dynOK := derr == nil
+			if dynOK {
+				back := &hx.Msg{}
+				dynOK = dyn.ConvertTo(protov1.MessageV1(back)) == nil && back.Count == 5 && string(back.Payload) == "reply"
+			}
+			kept := &hx.Msg{Count: 77, Payload: []byte("what the caller had")}
+			ferr := ich.Invoke(context.Background(), "/verif.Svc/U", &hx.Msg{Count: 13}, kept)
+			keptOK := ferr != nil && kept.Count == 77 && string(kept.Payload) == "what the caller had"
+			if !dynOK || !keptOK {
+				identOK = false
+				o.Violate("an intercepted channel changed the reply message the caller supplied before the wrapped channel saw it",
+					map[string]interface{}{"dynamic_reply_call": fmt.Sprint(derr), "dynamic_reply_ok": dynOK, "failed_call": fmt.Sprint(ferr), "reply_after_failed_call": kept.String()}, nil, "the same outcome as on the wrapped channel")
+			}
+		}
 		var lt []string
 		for _, ly := range layers {
 			f := func(s *cscript) string {
@@ -406,3 +478,15 @@ type foreignWrapper struct {
 }
 
 func (f foreignWrapper) Unwrap() grpc.ClientConnInterface { return f.ClientConnInterface }
+
+// methodRec is a wrapped channel that only records the method names it is called with
+type methodRec struct{ got *[]string }
+
+func (m methodRec) Invoke(ctx context.Context, method string, req, reply interface{}, opts ...grpc.CallOption) error {
+	*m.got = append(*m.got, "wrapped channel: "+method)
+	return status.Error(codes.Unimplemented, "recorded")
+}
+func (m methodRec) NewStream(ctx context.Context, desc *grpc.StreamDesc, method string, opts ...grpc.CallOption) (grpc.ClientStream, error) {
+	*m.got = append(*m.got, "wrapped channel: "+method)
+	return nil, status.Error(codes.Unimplemented, "recorded")
+}
